@@ -93,22 +93,22 @@ ADDENDA = {
  "C01": "Scalars are typed through the configuration or through @nitrogql_ts_type (definition or extend scalar); a third of the schemas are written with extensions; fragments may carry the name of an operation.",
  "C02": "Same additions as C01 (directive-typed scalars, schemas with extensions, shared names).",
  "C03": "A position-precise variable injector adds a fresh variable that is too weak for exactly one position (required argument, item of a list literal with/without a default on the location, item type inside a list variable, required input field, list literal inside an input field).",
- "C04": "Variables may be stricter than their position *inside* list wrappers ([T!]! into [T]); fragments may carry the name of an operation.",
- "C05": "The directive-recursion injector builds cycles of 1-3 directive definitions whose hops go through an argument, an input field, the input object, an enum, an enum value, a scalar or a nested input type, plus non-recursive bystander directives that share the cycle's types; the covariance injector substitutes implementer field types of every kind (scalar, enum, object, interface, union) and list shape.",
+ "C04": "Variables may be stricter than their position *inside* list wrappers ([T!]! into [T]); fragments may carry the name of an operation. One case in 24 also goes through the real CLI with the schema given as an introspection result.",
+ "C05": "The directive-recursion injector builds cycles of 1-3 directive definitions whose hops go through an argument, an input field, the input object, an enum, an enum value, a scalar or a nested input type, plus non-recursive bystander directives that share the cycle's types; the covariance injector substitutes implementer field types of every kind (scalar, enum, object, interface, union) and list shape. ",
  "C07": "The hostile alphabet includes backspace, form feed, CR, VT and U+2028; braced escapes are written with leading zeros.",
- "C08": "Further input classes: escape soup (surrogate range ends, 10FFFF/110000, leading zeros, pairs, truncated forms, in seven syntactic positions), valid generated projects (every printer runs after an accepted check), fragment cycles of length 1-3 reached from every operation kind, nesting with nullable / mixed / unclosed list types. A parser step budget (pest's running total of rule calls: 5000 per input byte + 500000) observes super-linear parsing as a logical bound in the library and loader parts; a per-case watchdog in the engine nominates inputs that do not return (exit status 5), which are then replayed alone twice with a 400 s limit before anything is reported. Thorough tier: a libFuzzer front end (cargo-fuzz, 16 forked workers, 7 min, seeded with 3000 generated inputs) drives the same pipeline; its findings are the monitor's own signatures and its crash/timeout artifacts are replayed through the engine.",
+ "C08": "Further input classes: escape soup (surrogate range ends, 10FFFF/110000, leading zeros, pairs, truncated forms, in seven syntactic positions), valid generated projects (every printer runs after an accepted check), fragment cycles of length 1-3 reached from every operation kind, nesting with nullable / mixed / unclosed list types. A parser step budget (pest's running total of rule calls: 5000 per input byte + 500000) observes super-linear parsing as a logical bound in the library and loader parts; a per-case watchdog in the engine nominates inputs that do not return (exit status 5), which are then replayed alone twice with a 400 s limit before anything is reported. Thorough tier: a libFuzzer front end (cargo-fuzz, 16 forked workers, 7 min, seeded with 3000 generated inputs) drives the same pipeline; its findings are the monitor's own signatures and its crash/timeout artifacts are replayed through the engine. Also: conflicting response keys (unmergeable fields under one key), hostile scalar type texts (non-ASCII string-literal types), and scaling families (the same construct at sizes 14 and 18; a thread-CPU-time ratio of 8x or more for 1.3x the input, with at least 100 ms, is reported as super-linear). The CLI part uses explicit document file names so that generate is reached (counted in the evidence).",
  "C09": "Scalars are also typed through @nitrogql_ts_type; configuration entries for built-in scalars (ID) are part of the matrix.",
  "C10": "Scalars are typed through the configuration, through @nitrogql_ts_type, or both (the configuration wins); type names include leading underscores and lower-case initials.",
- "C13": "Import path spellings include absolute paths, absolute paths with `..` and `/./` segments.",
+ "C13": "Import path spellings include absolute paths, absolute paths with `..` and `/./` segments. Fragment names may begin like keywords of the import syntax (from, import, on_); files share base names across directories; a loader route drives the real ABI on a sample of fault-free graphs (3 runs each).",
  "C14": "Every other project drives all its files through ONE long-lived loader instance: a different configuration and an emit first (a process serving two projects), then overlapping tasks (several initiated before the first completes, a late one initiated while others are in flight); each module must still be that of its own file under the configuration loaded last.",
  "C15": "Root-shape documents: an operation of a kind the schema declares no root for while an ordinary object type carries the default root name (Mutation / Subscription), on both routes.",
- "C16": "A quarter of the server schemas go through the real CLI with a scalar configuration (so that generate runs); schemas apply @nitrogql_ts_type on custom and built-in scalars, and (CLI route, model plugin configured) @model on objects and fields at any position among other, order-sensitive directive applications. Multi-line string values are split into those for which printing between triple quotes is exact (must survive) and the rest (listed finding).",
- "C17": "Part D: the check verdict of valid documents, single-fault documents and single-fault schemas under reversed and shuffled schema definitions, in-process (about 48000 permutations in the quick tier). History variant: a working copy that still holds the outputs of an earlier revision of the sources (same declarations, other positions) must end up with the bytes of a clean run.",
+ "C16": "A quarter of the server schemas go through the real CLI with a scalar configuration (so that generate runs); schemas apply @nitrogql_ts_type on custom and built-in scalars, and (CLI route, model plugin configured) @model on objects and fields at any position among other, order-sensitive directive applications. Multi-line string values are split into those for which printing between triple quotes is exact (must survive) and the rest (listed finding). Every third CLI project is generated twice in one directory (an earlier, longer revision of the schema first).",
+ "C17": "Part D: the check verdict of valid documents, single-fault documents and single-fault schemas under reversed and shuffled schema definitions, in-process (about 48000 permutations in the quick tier). History variant: a working copy that still holds the outputs of an earlier revision of the sources (same declarations, other positions) must end up with the bytes of a clean run. Part A2: several diagnostics anchored at one position (a field missing all of its required arguments, selected twice), K+3 runs per output format. The history variant's earlier revision has one more type, so every earlier output was longer.",
  "C18": "Copy-paste twins (the same faulty file under a second name: identical message, line and column in two files), projects whose schema is an introspection result, a layout with a documents glob through `..`, and three invocation styles (project directory, parent directory with --config-file, sub-directory with --config-file ../).",
- "C19": "The source pool has files in other directories with their own relative imports and a root in a nested directory; the alphabet includes the id the loader would hand out next (never given to the caller).",
+ "C19": "The source pool has files in other directories with their own relative imports and a root in a nested directory; the alphabet includes the id the loader would hand out next (never given to the caller). Further: read-the-last-result before and after every free_task, root names that are not in normal form, a scripted two-directories project (identical import strings for different targets) in all 24 load orders.",
  "C20": "End-to-end projects use dotted output names (schema.generated.d.ts, api.v2.d.mts, gen.d/schema.cts), a fragment file outside the project directory and three CLI invocation styles; 1600 CLI projects in the quick tier.",
  "C06": "End-to-end part: 1600 CLI projects in the quick tier, dotted output names, a fragment file outside the project directory, three CLI invocation styles.",
- "C12": "Fragments may carry the name of an operation.",
+ "C12": "Fragments may carry the name of an operation. The file splitter has a minimal import mode (a file imports only what its own definitions spread: diamonds over the imported files' own imports); the loader-ABI route does not wait for the CLI-side check verdict.",
 }
 for _k, _v in ADDENDA.items():
     CHECKS[_k]["text"] = CHECKS[_k]["text"].rstrip() + " " + _v
